@@ -71,7 +71,8 @@ class World:
         "payloads have the shape of the axes; callers do not mutate arrays after handing them over",
     ]
     rule = ("program = seeded list of additions at every level (explicit or implicit resolution), resolution changes along "
-            "admissible and inadmissible edges and inadmissible operations; after every op every view the object serves "
+            "admissible and inadmissible edges, data assigned through the data property, derived spectra edited by the caller, "
+            "containers (pass-through and over waiting times, filled out of order) and inadmissible operations; after every op every view the object serves "
             "(total, REPH, NONR, DC, 4 processes, 8 types, every [type, tag]) is compared with the ledger; thorough tier "
             "re-runs each sampled program with one inadmissible operation inserted at every position; "
             "non-trivial = >=2 accepted additions and >=1 resolution change or refused operation; distinct = distinct "
